@@ -470,3 +470,32 @@ fault("C04.goto-before-pop", "C04", P, "                    del parse_stack[-r_l
 fault("C04.index-empty-cell", "C04", P, "            if not actions:\n                symbols_expected = list(cur_state.actions.keys())", "            if actions is None:\n                symbols_expected = list(cur_state.actions.keys())", None)
 benign("C04.b-comprehension", "C04", P, "                unhandled_conflicts = []\n                for src in self.table.sr_conflicts:\n                    if not src.dynamic:\n                        unhandled_conflicts.append(src)\n            else:\n                unhandled_conflicts = self.table.sr_conflicts",
        "                unhandled_conflicts = []\n                for src in self.table.sr_conflicts:\n                    if not src.dynamic:\n                        unhandled_conflicts.append(src)\n            else:\n                unhandled_conflicts = self.table.sr_conflicts\n            pass")
+
+# ---------------------------------------------------------------- C02
+fault("C02.return-before-link", "C02", G, "        active_head = self._active_heads.get(state.state_id, None)\n        if active_head:\n            created = active_head.create_link(parent)", "        active_head = self._active_heads.get(state.state_id, None)\n        if active_head and active_head.parents and len(node_nonterm.children) == 0:\n            return\n        if active_head:\n            created = active_head.create_link(parent)", "R02.link-no-drop")
+fault("C02.no-revisit", "C02", G, "                        ]:\n                            self._do_reductions(r_head, action.prod, parent)", "                        ]:\n                            pass", "R02.revisit")
+fault("C02.revisit-unlimited", "C02", G, "                            self._do_reductions(r_head, action.prod, parent)", "                            self._do_reductions(r_head, action.prod)", "R02.revisit")
+fault("C02.revisit-no-for-actor-diff", "C02", G, "                ) - set(h.state.state_id for h in self._for_actor)\n", "                )\n", "R02.revisit")
+fault("C02.record-only-full", "C02", G, "                if node.frontier == head.frontier:\n                    # Cache traversed", "                if update_parent is None and node.frontier == head.frontier:\n                    # Cache traversed", "R02.revisit")
+fault("C02.first-parent-only", "C02", G, "                    else list(node.parents.values())\n                ):", "                    else list(node.parents.values())[:1]\n                ):", "R02.all-parents")
+fault("C02.no-pushback", "C02", G, "            if end_position is not None and head.token_ahead.end_position > end_position:\n                self._for_shifter.append((head, to_state))\n                break", "            if end_position is not None and head.token_ahead.end_position > end_position:\n                break", "R02.link-no-drop")
+fault("C02.traversed-and", "C02", G, "                    traversed = traversed or (\n                        update_parent and update_parent.head == node\n                    )", "                    traversed = traversed and (\n                        update_parent and update_parent.head == node\n                    )", "R02.all-parents")
+fault("C02.reduce-untraversed", "C02", G, "                    elif traversed:\n                        self._reduce(", "                    else:\n                        self._reduce(", "R02.all-parents")
+fault("C02.new-head-not-queued", "C02", G, "            self._for_actor.append(new_head)\n            self._active_heads[new_head.state.state_id] = new_head", "            self._active_heads[new_head.state.state_id] = new_head", "R02.link-no-drop")
+fault("C02.merge-replace", "C02", G, "        self.possibilities.extend(other.possibilities)\n        self._solutions = None", "        self.possibilities = list(other.possibilities)\n        self._solutions = None", "R17.forest-root")
+fault("C02.length-twice", "C02", G, "                length = length - 1\n", "                length = length - 1\n                if length > 1:\n                    length = length - 1\n", None)
+benign("C02.b-invert-if", "C02", G, "                    if last_parent is None:\n                        last_parent = parent\n", "                    if not (last_parent is not None):\n                        last_parent = parent\n")
+
+# ---------------------------------------------------------------- C01
+fault("C01.sort-len", "C01", G, "self._for_shifter.sort(key=lambda x: x[0].token_ahead.end_position, reverse=True)", "self._for_shifter.sort(key=lambda x: len(x[0].token_ahead), reverse=True)", "R01.shift-order")
+fault("C01.sort-ascending", "C01", G, "self._for_shifter.sort(key=lambda x: x[0].token_ahead.end_position, reverse=True)", "self._for_shifter.sort(key=lambda x: x[0].token_ahead.end_position)", "R01.shift-order")
+fault("C01.cut-ge", "C01", G, "if end_position is not None and head.token_ahead.end_position > end_position:", "if end_position is not None and head.token_ahead.end_position >= end_position:", "R01.shift-order")
+fault("C01.accept-in-error-mode", "C01", G, "                if not self._in_error_reporting:\n                    self._accepted_heads.append(head)", "                if True:\n                    self._accepted_heads.append(head)", "R17.accumulate")
+fault("C01.actor-break", "C01", G, "                self._do_reductions(head, action.prod)\n            else:", "                self._do_reductions(head, action.prod)\n                break\n            else:", "R17.accumulate")
+fault("C01.errors-raw", "C01", G, "        self.errors.append(\n            self._create_error(\n                input_str,\n                context,", "        self.errors.append(\n            Exception(\n                input_str,\n                context,", "R10.errors-are-syntax-errors")
+fault("C01.drop-token", "C01", G, "                while tokens:\n                    token = tokens.pop()\n                    head = head.for_token(token)", "                while tokens:\n                    token = tokens.pop()\n                    if len(tokens) > 2:\n                        continue\n                    head = head.for_token(token)", None)
+fault("C01.goto-head-state", "C01", G, "        state = root_head.state.gotos[production.symbol]", "        state = head.state.gotos[production.symbol]", "R08.roles-glr")
+fault("C01.children-append", "C01", G, "                    new_results = [parent] + results", "                    new_results = results + [parent]", "R08.roles-glr")
+fault("C01.one-subfrontier", "C01", G, "            while self._active_heads_per_symbol:\n                _, self._active_heads = self._active_heads_per_symbol.popitem()", "            if self._active_heads_per_symbol:\n                _, self._active_heads = self._active_heads_per_symbol.popitem()", "R01.main-loop")
+fault("C01.record-only-full", "C01", G, "                if node.frontier == head.frontier:\n                    # Cache traversed", "                if update_parent is None and node.frontier == head.frontier:\n                    # Cache traversed", "R02.revisit")
+fault("C01.follow-first-occurrence", "C01", T, "                            additions = True\n                            follow_sets[symbol].update(prod_follow)\n    return follow_sets", "                            additions = True\n                            follow_sets[symbol].update(prod_follow)\n                        break\n    return follow_sets", "R05.nullable-scan")
